@@ -61,7 +61,7 @@ def e2e_case(rng, alg, n, kind="e2e"):
 
 
 def generate(rng, tier):
-    reps = 1 if tier == "quick" else 5
+    reps = 2 if tier == "quick" else 20
     for _ in range(reps):
         for n in range(-1, 241):
             for alg in (ALG_AUTH, ALG_ENC):
